@@ -16,7 +16,7 @@ EXPLANATION = (
     "pool timing are trusted (std mpsc, rayon).")
 ASSUMPTIONS = ["std::sync::mpsc: recv blocks until a value or disconnect; rayon::ThreadPool::spawn runs the closure exactly once"]
 TRUSTED = ["rustc nightly MIR construction", "shred-facts driver", "shredlint analyses"]
-TECHNIQUE = 'static: typestate gate (who inspects Data, blocking inner() on every path of every accessor, inner() dominates replace in sender), decision tables of inner / inner_noblock, job ordering by dominance (full stage loop before send), compile_fail witness'
+TECHNIQUE = 'static: typestate gate (who inspects Data, blocking inner() on every path of every accessor, inner() dominates replace in sender), state tables of inner / inner_noblock over the structured evaluation (with store forwarding through *self), job ordering (full stage loop, then one send of what sender() handed out), compile_fail witness'
 RULE_TEXT = "one obligation per accessor, per state-inspecting body, per decision-table row of Data::inner / inner_noblock, per job ordering site"
 
 
